@@ -7,6 +7,7 @@ import gen
 import qast
 import sexp
 from props.common import *
+from props import ext
 from props import aggoracle
 
 TRUSTED_BASE = ['serde_json / ryu float printing is not modelled: floats are compared after re-parsing the implementation\'s JSON with Python',
@@ -214,6 +215,11 @@ def explore(ctx):
     kinds = {}
     for r in jres:
         kinds[r['model']['kind']] = kinds.get(r['model']['kind'], 0) + 1
+    # dates as text: chrono's three renderings (DateFmt.v) on every output path, and the clause itself - the JSON text of a
+    # date, read back independently, is the instant that went in
+    n_d, nt_d, f_d, st_d = ext.date_family(rng, quick)
+    failures += f_d
+    evals += n_d
     cov = {
         'evaluations': evals, 'distinct_nontrivial': len(nontrivial),
         'rule': 'rows and tables with every value type incl. nested, NaN/inf (division by zero, overflow), keys needing JSON escaping, through -o json (validity, exact fields, column order, lossless values), '
@@ -222,4 +228,5 @@ def explore(ctx):
         'text_cases_unmodelled': unm, 'model_outcomes': kinds, 'cli_cases': len(cli) + len(grid),
         'model_vs_impl_disagreements': sum(1 for r in jres if r['corr']),
     }
+    cov['date_text_family'] = dict(st_d, texts_equal_to_the_model=n_d - len(f_d))
     return {'coverage': cov, 'failures': failures}
